@@ -80,4 +80,21 @@ def cellsOk (o : Opt) : Bool :=
     | .int, .int _ => true | .float, .flt _ => true | .bool, .bool _ => true | .str, .str _ => true
     | .ptr, .ptr _ => true | .sec, .sec _ => true | _, _ => false)
 
+/-- one element of `cfg_addlist_internal`: the typed setter at index `nvalues` -/
+def addOneF (o : Opt) (v : Val) (fail : Option Nat) : FOut :=
+  match v with
+  | .str s => setnStrF o s o.vals.length fail
+  | _ => setnNumF o v o.vals.length fail
+
+/-- `cfg_addlist_internal` under a failing allocator (since fix F40 it stops at the first element that cannot be
+stored and reports failure) -/
+def addlistF : Opt → List Val → Option Nat → FOut
+  | o, [], _ => ⟨o, true, 0⟩
+  | o, v :: vs, fail =>
+    let r := addOneF o v fail
+    if !r.ok then r
+    else
+      let r2 := addlistF r.opt vs (shiftFail fail r.allocs)
+      ⟨r2.opt, r2.ok, r.allocs + r2.allocs⟩
+
 end Confuse
